@@ -517,7 +517,9 @@ pub fn run_sharded(def: &PropertyDef, cfg: &Cfg) -> Stats {
                                         )),
                                     }
                                 }
-                                if deaths < 200 {
+                                // a death is attributed to its case and the shard goes on behind it; the cap only stops a
+                                // generator whose every case dies (1 % of the cases, at least 200)
+                                if (deaths as u64) < (generator.total / 100).max(200) {
                                     pending.push((k, idx + 1, attempt + 1));
                                 } else {
                                     merged.harness_error("too many shard deaths; giving up on this shard".into());
